@@ -9,17 +9,17 @@ HOOK_COMMITS = ["9deeead"]
 CLAIMED = {
  "C19": ("other",
          "runtime reflection on the regenerated exported API surface (type identity of constant-gated parameters, closedness of safe types) plus dynamic taint probing of every exported function and method",
-         "The registry of exported functions/types/variables/aliases is regenerated from /repo's sources at every check and linked in; the monitor observes in the running binary that every reviewed trusted-text parameter has an unexported library-defined string type that nothing exported exposes, that safe types are closed structs, and that no exported function or method returns a safe-type value containing a hostile caller string verbatim; ParseFS patterns are checked for confinement. That the compiler rejects non-constant arguments is inferred from the observed types under the Go specification (not observable at run time); the harness also contains, and executes without reflection, the generic-helper program that defeats this gating on Go >= 1.18 (known finding K27).",
+         "The registry of exported functions/types/variables/aliases is regenerated from /repo's sources at every check and linked in; the monitor observes in the running binary that every reviewed trusted-text parameter has an unexported library-defined string type that nothing exported exposes, that safe types are closed structs, no other exported type (nor string, []byte or a look-alike struct) is convertible to a safe type, and that no exported function or method returns a safe-type value containing a hostile caller string verbatim; ParseFS patterns are checked for confinement. That the compiler rejects non-constant arguments is inferred from the observed types under the Go specification (not observable at run time); the harness also contains, and executes without reflection, the generic-helper program that defeats this gating on Go >= 1.18 (known finding K27).",
          "Trusted: Go assignability/export rules (stated assumption); policy/api_surface.json (reviewed list). A compile-time property cannot be observed by executing code; only its run-time-visible premises are.",
          "DESIGN.md §5 C19"),
  "C09": ("exploration",
          "Go race detector over many short concurrent runs with hook-injected yields, plus per-operation equality with the sequential (fresh set) reference",
-         "Each run shares one fresh set among 2-16 goroutines doing first/repeated executions of members with shared helpers and read-only calls; verif-tagged hooks in the engine log the event order and perturb the schedule. Race reports are counted from the detector's log; every operation result is compared with the same call made alone on a fresh set. Held on the schedules that occurred (distinct interleavings are counted in the evidence).",
+         "Each run shares one fresh set among 2-16 goroutines doing first/repeated executions of members with shared helpers and read-only calls; a template function calls back into the set during execution; data of dynamic types not seen before in the process; verif-tagged hooks in the engine log the event order and perturb the schedule; a run whose calls have not all returned after 90 s is a deadlock. Race reports are counted from the detector's log; every operation result is compared with the same call made alone on a fresh set. Held on the schedules that occurred (distinct interleavings are counted in the evidence).",
          "Trusted: Go race detector (no false positives; misses races that do not occur in the executed schedules); sequential reference = engine on a fresh set.",
          "DESIGN.md §5 C09"),
  "C05": ("exploration",
          "runtime monitor over recorded API histories: absolute no-output / tick-probe checks plus comparison with the replay-on-a-fresh-set reference",
-         "Generated histories over template sets that contain members whose analysis fails in every listed mode; each Execute*/ExecuteTemplate* call is observed (bytes written, error class, a tick function counting body runs): analysis errors must be sticky, write nothing and never run the body; *ToHTML must return the zero HTML with any error.",
+         "Generated histories over template sets that contain members whose analysis fails in every listed mode; each Execute*/ExecuteTemplate* call is observed (bytes written, error class, a tick function counting body runs): analysis errors must be sticky, write nothing and never run the body; members whose body is exactly one construct that cannot be contextualized (incl. same-state range re-entry, break/continue inside tags) must fail whatever the engine says on a fresh set; *ToHTML must return the zero HTML with any error.",
          "Trusted: the engine on fresh objects as reference for 'analysis fails'; the tick probe as evidence that a body ran.",
          "DESIGN.md §5 C05"),
  "C06": ("exploration",
@@ -29,8 +29,8 @@ CLAIMED = {
          "DESIGN.md §5 C06"),
  "C07": ("exploration",
          "runtime monitor over recorded API histories with an abstract set/lineage model: Parse-after-Execute and Clone-after-Execute must fail; executions equal the per-lineage replay reference",
-         "Histories interleave New, Parse, Clone (several generations), redefinitions on either side, Lookup, Templates and Execute*; the model decides which calls must fail, the replay reference (definition calls of the handle's own lineage only) exposes any leakage between original and clone or any late Parse that took effect.",
-         "Trusted: the abstract model (a set is frozen by the first Execute* call made on any of its handles).",
+         "Histories interleave New (of fresh and existing names, before and after execution, with parsing into the result and into the replaced stale handle), Parse, file-based parsing, Clone (several generations), redefinitions on either side, Lookup, Templates and Execute*; the model decides which calls must fail, the replay reference (definition calls of the handle's own lineage only) exposes any leakage between original and clone or any late Parse that took effect.",
+         "Trusted: the abstract model (a set is frozen by the first Execute* call made on any of its handles; New(name)/file-based parsing before that disassociate handles of the name; New after that creates a non-member).",
          "DESIGN.md §5 C07"),
  "C08": ("exploration",
          "runtime monitor: every API call of generated hostile histories runs under recover with a journal and a watchdog; panics, worker deaths and non-returning calls are the refuting events",
@@ -39,28 +39,28 @@ CLAIMED = {
          "DESIGN.md §5 C08"),
  "C03": ("exploration",
          "runtime monitor: typed-vs-plain differential per sanitization cell + token-structure and decoded-value check of every attribute cell (independent tokenizer)",
-         "All 46 context cells x 7 safe types x pointer depth 0-2 x a hostile contents corpus are executed (and seeded soups): outside its own context a typed value must behave exactly like the plain string; in attribute cells no value may change the token structure, and emitted values must decode to the contents.",
+         "All 53 context cells (incl. end-tag attributes, attribute names split over text nodes, slash separators) x 7 safe types x pointer depth 0-2 x a hostile contents corpus are executed (and seeded soups): outside its own context a typed value must behave exactly like the plain string; in attribute cells no value may change the token structure, and emitted values must decode to the contents.",
          "Trusted: htmltok + DecodeAttrValue; the type/context matrix stated in the property; typed values built with uncheckedconversions.",
          "DESIGN.md §5 C03"),
  "C04": ("exploration",
          "runtime monitor: black-box behaviour classification of every (element, attribute, quoting) cell against a reviewed policy data file; outcomes ranked verbatim < escaped < innocuous < error",
-         "Each cell template is executed with a 23-probe vector; the observed outcome rank must be >= the rank the reviewed policy prescribes, so a stricter engine never alarms and any weakened table entry, loosened data-* pattern or accepted unquoted/name position does. quick: every listed pair (exhaustive) + 10% sample of the unknown product; thorough: full product of 270 element x 480 attribute names x 2 quotings.",
+         "Each cell template is executed with a 23-probe vector; the observed outcome rank must be >= the rank the reviewed policy prescribes, conditional element/attribute names (two-way, three-way chains with equal first/last branch, nested joins, void representatives, content after the conditional tag) must be at least as strict as every alternative; a stricter engine never alarms and any weakened table entry, loosened data-* pattern or accepted unquoted/name position does. quick: every listed pair (exhaustive) + 10% sample of the unknown product; thorough: full product of 270 element x 480 attribute names x 2 quotings.",
          "Trusted: policy/reviewed_policy.json (committed, reviewed against the property text); htmltok to read emitted attribute values.",
          "DESIGN.md §5 C04"),
  "C14": ("exploration",
          "runtime monitor: decoded attribute value split into static prefix + f(datum), judged per URL component by independent URL/percent-encoding references; independent must-reject predicate for prefixes",
-         "14 URL-typed targets x 2 quotings x structured and grammar-generated prefixes x hostile data: f(datum) must be fully percent-encoded in query/fragment and after TrustedResourceURL prefixes (same scheme/authority, no dot-dot segment with the datum), normalised and idempotent elsewhere; prefixes that leave the scheme open, contain whitespace/controls (also as references) or end in partial references/escapes must be rejected.",
+         "14 URL-typed targets x 2 quotings x structured and grammar-generated prefixes x hostile data: f(datum) must be fully percent-encoded in query/fragment and after TrustedResourceURL prefixes (same scheme/authority, no dot-dot segment with the datum), normalised and idempotent elsewhere; values made of several static pieces and data (helpers with static text at two call sites, range bodies, recursive helpers) are aligned with the author's rendering and every datum is judged by the component the static text before it selects; prefixes that leave the scheme open, contain whitespace/controls (also as references) or end in partial references/escapes must be rejected.",
          "Trusted: htmltok + DecodeAttrValue, refs.Scheme/SafeTRUPrefix/DotDotWithArg, RFC 3986 split.",
          "DESIGN.md §5 C14"),
  "C01": ("exploration",
          "runtime monitor: independent WHATWG tokenizer compares the token structure of hostile / inert / author renderings of generated templates; marker location",
          "Every accepted generated template is executed with hostile and inert assignments; three oracles (data vs inert structure, engine vs text/template rendering of the author's markup, marker containment) judge each execution in three tree-builder modes. Reach comes from the grammar (lexical variants, special elements, control flow that tears tags, helpers) and the edge battery; nothing is claimed for templates or data not generated.",
-         "Trusted: htmltok (self-tested), text/template as renderer of the author's markup; hostile and inert assignments share truthiness and list lengths. Known findings K01, K16, K17, K21 are excluded by the syntactic predicates stated in KNOWN_FINDINGS.txt.",
+         "Trusted: htmltok (self-tested), text/template as renderer of the author's markup; hostile and inert assignments share truthiness and list lengths. Known findings K01 (abrupt comments only), K16, K17, K21, K28 are excluded by the syntactic predicates stated in KNOWN_FINDINGS.txt.",
          "DESIGN.md §5 C01"),
  "C02": ("exploration",
          "runtime monitor: marker location + whole-value scheme scan of every successful hostile execution (independent tokenizer, character-reference decoder, WHATWG scheme and srcset parsers)",
          "A systematic family (47 element/attribute targets x 2 quotings x 26 static prefixes x 33 shapes of dynamic parts, dangerous strings split over the parts) plus grammar-generated templates; each output is tokenized, every marker located, every data-dependent URL attribute decoded and scanned. Violations are code contexts reached by plain strings or a javascript scheme.",
-         "Trusted: htmltok + DecodeAttrValue, refs.Scheme/Srcset/SafeTRUPrefix; static prefixes are read off the inert execution of the same template. Known findings K05r, K14 excluded as stated in KNOWN_FINDINGS.txt.",
+         "Trusted: htmltok + DecodeAttrValue, refs.Scheme/Srcset/SafeTRUPrefix; static prefixes are read off the inert execution of the same template. Known finding K14 excluded as stated in KNOWN_FINDINGS.txt.",
          "DESIGN.md §5 C02"),
  "C11": ("exploration",
          "runtime monitor: WHATWG scheme scanner + character-reference decoder observe every URLSanitized result over exhaustive case-folding/insertion families and seeded URL soups",
@@ -74,7 +74,7 @@ CLAIMED = {
          "DESIGN.md §5 C12"),
  "C13": ("exploration",
          "runtime monitor: results of TrustedResourceURLFormat/Append/WithParams decomposed by an independent marker substitution, RFC 3986 split and dot-segment scan",
-         "Every builder call made is compared with an independent substitution/encoding reference and scanned for '..' segments that involve argument bytes; WithParams is checked for component preservation and determinism over rebuilt maps. Systematic prefix x piece x dot-argument products plus seeded formats.",
+         "Every builder call made is compared with an independent substitution/encoding reference and scanned for '..' segments that argument bytes (or an empty argument between dots) take part in, and for a scheme/authority that differs from the format with one-character placeholders; WithParams is checked for component preservation and determinism over rebuilt maps. Systematic prefix x piece x dot-argument products plus seeded formats.",
          "Trusted: refs.SafeTRUPrefix / Enc / DotDotWithArg, RFC 3986 appendix-B regular expression.",
          "DESIGN.md §5 C13"),
  "C15": ("exploration",
@@ -89,7 +89,7 @@ CLAIMED = {
          "DESIGN.md §5 C16"),
  "C17": ("exploration",
          "runtime monitor: frame split + JSON re-decoding of every ScriptFromDataAndConstant result against an independent encoding of the same data",
-         "Each call with generated (name, data, script) is checked for the exact frame, forbidden characters in the literal, single JSON text, round trip against encoding/json in an independent mode, and for failing (zero Script) on non-identifier names and unencodable data.",
+         "Each call with generated (name, data, script) is checked for the exact frame, forbidden characters in the literal, single JSON text, round trip against encoding/json in an independent mode, and for failing (zero Script) on non-identifier names and unencodable data; one case in six is preceded by a call that fails or panics inside a caller-supplied Marshaler (state kept between calls would show).",
          "Trusted: encoding/json Encoder(SetEscapeHTML(false)) / Decoder(UseNumber) as the reference JSON semantics; constant-only parameters are driven via reflect conversion.",
          "DESIGN.md §5 C17"),
  "C18": ("exploration",
@@ -99,7 +99,7 @@ CLAIMED = {
          "DESIGN.md §5 C18"),
  "C20": ("exploration",
          "runtime monitor: path decomposition (Clean/Join/Dir/Base) of every TrustedSourceFromConstantDir result; exhaustive over short filenames on a hostile alphabet",
-         "All filenames up to length 3 (thorough 4) over a 20-symbol alphabet x 8 constant dirs x 5 src values are executed; every accepted result must be the base directory or a direct child whose last element is the filename.",
+         "All filenames up to length 3 (thorough 4) over a 20-symbol alphabet x 8 constant dirs x 5 src values are executed; every accepted result must be the base directory or a direct child whose last element is the filename; families of consecutive calls whose (dir, src) are all splits of one string expose state kept between calls.",
          "Trusted: path/filepath of the host OS for decomposition.",
          "DESIGN.md §5 C20"),
  "C10": ("exploration",
